@@ -156,7 +156,7 @@ def pipeline_diag(work, driver, cases, limit=400, tag="pipe"):
     core.run_cases(driver, "run", os.path.join(d, "cases.ndjson"), os.path.join(d, "trace.ndjson"))
     cfg = os.path.join(d, "P.cfg")
     with open(cfg, "w") as fh:
-        fh.write("SPECIFICATION PSpec\nCONSTANTS NSMaxNodes = 9 NSMaxEdges = 14 CBMaxNodes = 14 CBMaxEdges = 30 POMaxNodes = 24 WMMaxNodes = 10 WMMaxEdges = 14 ACCUMULATE = FALSE RESET_TREE = TRUE\nPOSTCONDITION TraceAccepted\nCHECK_DEADLOCK FALSE\n")
+        fh.write("SPECIFICATION PSpec\nCONSTANTS NSMaxNodes = 9 NSMaxEdges = 14 CBMaxNodes = 14 CBMaxEdges = 30 POMaxNodes = 24 WMMaxNodes = 10 WMMaxEdges = 14 NPMaxAux = 30 ACCUMULATE = FALSE RESET_TREE = TRUE\nPOSTCONDITION TraceAccepted\nCHECK_DEADLOCK FALSE\n")
     cmd = core.java_cmd(work, d) + ["-workers", "1", "-metadir", os.path.join(d, "meta"), "-noGenerateSpecTE", "-config", cfg,
                                     os.path.join(work.specdir, "PipelineTrace.tla")]
     t0 = time.time()
@@ -182,7 +182,7 @@ def pipeline_diag(work, driver, cases, limit=400, tag="pipe"):
         return None
     if drift:
         log("[pipe] DRIFT (diagnostic, not a verdict): %s" % json.dumps(drift, sort_keys=True))
-    return dict(name="PipelineTrace.tla: %d stage snapshots of %d calls against the phase contracts of Pipeline.tla (layer 2) and %d phase-1 / layering / helper-node / ordering / coordinate / route / crossing-count / collect results predicted exactly by CycleBreakOps, NetSimplexOps, BreakAll, WMedianOps, PositionOps, RouteOps, OrderCrossings, Collect (layer 3), %d drifting" % (stats["stages"], stats["calls"], stats["l3predictions"], stats["drift"]),
+    return dict(name="PipelineTrace.tla: %d stage snapshots of %d calls against the phase contracts of Pipeline.tla (layer 2) and %d phase-1 / layering / helper-node / ordering / coordinate / route / crossing-count / collect results predicted exactly by CycleBreakOps, NetSimplexOps, BreakAll, WMedianOps, PositionOps, NSPositionOps, RouteOps, OrderCrossings, Collect (layer 3), %d drifting" % (stats["stages"], stats["calls"], stats["l3predictions"], stats["drift"]),
                 generated=int(m.group(1)), distinct=int(m.group(2)), wall=time.time() - t0, ok=True, drift=drift)
 
 
@@ -215,9 +215,29 @@ def cyclebreak_model(work, tier):
 def netsimplex_model(work, tier):
     n, m = (4, 5) if tier == "quick" else (5, 6)
     return mech_model(work, "NetSimplex", "NetSimplex.tla",
-                      ("SPECIFICATION Spec\nCONSTANTS NN = %d MM = %d Thoroughness = 28 Parallel = TRUE ACCUMULATE = FALSE RESET_TREE = TRUE\n"
-                       "INVARIANTS FeasibleInv TreeIsSpanning CutValuesRight NoPanic Optimal NotStuck Contiguous\nPROPERTIES ObjectiveNeverIncreases\nCHECK_DEADLOCK FALSE\n") % (n, m),
+                      ("SPECIFICATION Spec\nCONSTANTS NN = %d MM = %d Thoroughness = 28 Parallel = TRUE ACCUMULATE = FALSE RESET_TREE = TRUE Weights = {1} Deltas = {1} Mode = \"V\"\n"
+                       "INVARIANTS FeasibleInv TreeIsSpanning CutValuesRight NoPanic Optimal NotStuck Contiguous LowestIsZero\nPROPERTIES ObjectiveNeverIncreases\nCHECK_DEADLOCK FALSE\n") % (n, m),
                       "NetSimplex.tla: every connected DAG multigraph with <= %d nodes / %d edges, one loop iteration per step (FeasibleInv, TreeIsSpanning, CutValuesRight, NoPanic, Optimal vs brute force, NotStuck, Contiguous, ObjectiveNeverIncreases)" % (n, m))
+
+
+def netsimplex_h_model(work, tier):
+    """the network simplex as the positioner runs it: per-edge weights and minimum lengths, horizontal balancing"""
+    n, m, ws, ds = (3, 3, "{0, 1, 2}", "{0, 1, 2}") if tier == "quick" else (4, 4, "{0, 1}", "{0, 2}")
+    return mech_model(work, "NetSimplexH", "NetSimplex.tla",
+                      ("SPECIFICATION Spec\nCONSTANTS NN = %d MM = %d Thoroughness = 28 Parallel = TRUE ACCUMULATE = FALSE RESET_TREE = TRUE Weights = %s Deltas = %s Mode = \"H\"\n"
+                       "INVARIANTS FeasibleInv TreeIsSpanning CutValuesRight NoPanic Optimal NotStuck LowestIsZero\nPROPERTIES ObjectiveNeverIncreases HBalanceKeepsObjective\nCHECK_DEADLOCK FALSE\n") % (n, m, ws, ds),
+                      "NetSimplex.tla, positioner mode: every connected DAG multigraph with <= %d nodes / %d edges x every assignment of weights %s and minimum lengths %s, hbalance (FeasibleInv, TreeIsSpanning, CutValuesRight, NoPanic, Optimal vs brute force, NotStuck, LowestIsZero, ObjectiveNeverIncreases, HBalanceKeepsObjective)" % (n, m, ws, ds),
+                      workers=12)
+
+
+def nspos_model(work, tier):
+    """the network-simplex positioner (auxiliary graph + weighted network simplex + hbalance) on every small layered graph"""
+    k = 4 if tier == "quick" else 6
+    return mech_model(work, "NSPosition", "Position.tla",
+                      ("SPECIFICATION Spec\nCONSTANTS Layers = 3 MaxPer = 2 MaxNodes = %d Widths = {0, 3, 6} MaxIn = 2 NS = 1\n"
+                       "INVARIANTS NSPosFinishes NSPosTreeRight NSPosFeasible NSPosBalanceKeepsObjective NSPosSeparates NSPosSeparatesExactly NSPosLeftmostZero NSPosStraightensChains\nCHECK_DEADLOCK FALSE\n") % k,
+                      "Position.tla + NSPositionOps: the network-simplex positioner on every proper layered graph with 3 layers, <= %d nodes, widths {0,3,6}: auxiliary graph, weighted network simplex, hbalance (NSPosFinishes, NSPosTreeRight, NSPosFeasible, NSPosBalanceKeepsObjective, NSPosSeparates, NSPosSeparatesExactly, NSPosLeftmostZero, NSPosStraightensChains)" % k,
+                      workers=15)
 
 
 def position_model(work, tier):
